@@ -137,10 +137,16 @@ func (m *Msg) Len() (l int) {
 var msgPool = sync.Pool{New: func() any { return new(Msg) }}
 
 func NewMsg() *Msg {
+	if m := verifGetMsg(); m != nil {
+		return m
+	}
 	return msgPool.Get().(*Msg)
 }
 
 func ReleaseMsg(m *Msg) {
+	if verifObjRelease(m) {
+		return
+	}
 	m.Header = Header{}
 
 	for _, q := range m.Questions {
@@ -158,6 +164,9 @@ func ReleaseMsg(m *Msg) {
 	m.Answers = m.Answers[:0]
 	m.Authorities = m.Authorities[:0]
 	m.Additionals = m.Additionals[:0]
+	if verifObjQuarantine(m) {
+		return
+	}
 	msgPool.Put(m)
 }
 
